@@ -241,6 +241,7 @@ func (r *rnRun) settle() string {
 	}
 	useCount, cleaning, lockFree := r.inv.VerifState()
 	if !lockFree {
+		lockLeaked(r.out.script)
 		return "IdleInvoker lock is held at quiescence"
 	}
 	if int(useCount) != r.sp.users || cleaning != (act != nil) {
